@@ -134,7 +134,7 @@ def zoneState (hasInsert : Bool) (k : Str) : St :=
 /-- `redactCommand` through the automaton -/
 def redactCommandA (c : Ctx) (cmd : List (Str × J)) : List (Str × J) :=
   let hasInsert := (lookup sInsert cmd).isSome
-  cmd.map fun (k, v) => (k, c.run (zoneState hasInsert k) v)
+  cmd.map fun p => (p.1, c.run (zoneState hasInsert p.1) p.2)
 
 def cmdDocA (c : Ctx) (v : J) : J :=
   match v with
